@@ -340,6 +340,25 @@ def g_schema_set(r):
             parts.append(f'<xs:attributeGroup name={quoteattr(n)}>'
                          + "".join(f'<xs:attribute name={quoteattr(g_ncname(r))} type="xs:string"/>' for _ in range(r.randint(1, 2)))
                          + '</xs:attributeGroup>')
+        if r.random() < 0.08:
+            # shape of C07-F21: a derived type whose attributes clash with an inherited element and with the name the
+            # by-preference rename would pick
+            b, d, x = g_ncname(r), g_ncname(r), r.choice(["x", "a", "é_1", "value", "class"])
+            if b != d and b not in s.complex + s.simple and d not in s.complex + s.simple:
+                parts.append(f'<xs:complexType name={quoteattr(b)}><xs:sequence><xs:element name={quoteattr(x)} type="xs:string"/></xs:sequence></xs:complexType>'
+                             f'<xs:complexType name={quoteattr(d)}><xs:complexContent><xs:extension base="{(s.prefix + ":") if s.tns else ""}{b}">'
+                             f'<xs:attribute name={quoteattr(x)} type="xs:string"/><xs:attribute name={quoteattr(x + "_Attribute")} type="xs:string"/>'
+                             f'</xs:extension></xs:complexContent></xs:complexType>')
+                s.features.add("override-conflict")
+        if r.random() < 0.05 and s.tns:
+            # shape of C07-F22: element + abstract complexType of one name, substitution group member used inside an inner mixed type
+            y, g = g_ncname(r), g_ncname(r)
+            taken = s.complex + s.simple + s.elements
+            if y != g and y not in taken and g not in taken:
+                parts.append(f'<xs:element name={quoteattr(y)} substitutionGroup="{s.prefix}:{g}"/><xs:complexType name={quoteattr(y)} abstract="true"><xs:sequence>'
+                             f'<xs:element name="f" type="xs:anyURI"/><xs:element name="f" minOccurs="2" maxOccurs="2"><xs:complexType mixed="true"><xs:choice>'
+                             f'<xs:element ref="{s.prefix}:{g}"/></xs:choice></xs:complexType></xs:element></xs:sequence></xs:complexType><xs:element name={quoteattr(g)}/>')
+                s.features.add("inner-enclosing")
         r.shuffle(parts)
         s.body = parts
     sources = {}
